@@ -47,8 +47,8 @@ OBLIGATIONS.update({
     "C08": ["Sx.hlogin_spec", "Sx.hlogout_spec", "Sx.logoutUser_spec", "Sx.refreshUser_spec", "Sx.setUserAll_spec", "Sx.two_objects_break_coherence"],
     "C01": ["Sx.coherence_all_histories", "Sx.c09_crash_equiv", "Sx.start_spec", "Sx.step_inv"],
 })
-OBLIGATIONS["C16"] = []
-OBLIGATIONS["C17"] = []
+OBLIGATIONS["C16"] = ["Sx.ess_enc_dec", "Sx.enc_dec_enc", "Sx.ess_enc_congr", "Cd.gob_roundtrip", "Cd.mutant_breaks"]
+OBLIGATIONS["C17"] = ["Sx.truncSec_idem", "Sx.convVal_idem", "Sx.convData_idem", "Sx.ess_enc_dec", "Sx.enc_dec_enc"]
 
 
 def _loc(*names):
